@@ -35,6 +35,54 @@ CLAIMED = {
             'fault enumeration: EVERY truncation point (every byte of the binary format, every character of the text format) of every small written file, each outcome classified exception / returned+warned+marked / silent.',
             'Trusted: the file-position -> sample map is measured with a probe file of unique values; files <= 20 samples for truncation; the text format has no length field (recorded known finding: cut inside the last token).',
             'exhaustive scope exploration + exhaustive fault (truncation-point) enumeration on the real writers/readers', 'DESIGN.md 4/C14'),
+    'C02': ('Unitarity, inversion and energy laws decided on full operator matrices (all complex deltas) for every shape up to the bound: padded-FFT focus/unfocus (A^H A = I, unfocus.focus = pad), '
+            'every band-complete (n, N>=n, Q=N/n) mdft and czt pair in both orders, the public fixed-sampling pair, and angular-spectrum free space over every ordered pair of distances (identity, inverse, additivity, |tf|=1), both precisions.',
+            'Trusted: numpy FFT/matmul; shapes [1..6]^2 (quick) / [1..9]^2 (thorough); distances, wavelengths, spacings from finite alphabets; tolerance 2e3 eps (measured <= 0.03 of it).',
+            'bounded-exhaustive scope exploration with operator-matrix closure against algebraic identities', 'DESIGN.md 4/C02'),
+    'C03': ('Closed-form physics oracle (Dirichlet kernel of a tilted pupil at the physical position k lambda f / D; linear phase of an unfocused displaced spot) evaluated for every enumerated size / parity / Q / unit set / tilt / requested spacing / sample count / shift '
+            'through the FFT route with its reported dx and both fixed-sampling routes; no DFT code is used as the oracle.',
+            'Trusted: geometric-sum closed form; N in [2..9], non-square pupils for fixed-sampling routes only (a single reported dx cannot describe a non-square FFT grid: necessary conditions only); finite alphabets for real parameters; quick = full product on shapes <= 4, every 7th cell elsewhere.',
+            'bounded-exhaustive scope exploration against an analytic (closed-form) reference model', 'DESIGN.md 4/C03'),
+    'C05': ('Metamorphic relations decided on operator matrices: linearity, invariance under origin-preserving zero-pad embedding at equal physical sampling (embedding done by the harness), transposition covariance with per-axis arguments swapped, '
+            'all-pass full-band mask round trip = identity for every shift, Babinet additivity and Wavefront.babinet; both methods, both directions, real and complex masks of smaller/equal/larger shape.',
+            'Trusted: numpy; pupil shapes <= 5 embedded in shapes <= 7 (quick subsets stated in the evidence rule); physical band and shift alphabets; tolerance 2e3 eps.',
+            'bounded-exhaustive scope exploration with operator-matrix closure against metamorphic relations', 'DESIGN.md 4/C05'),
+    'C06': ('Linear companions: forward operator A and companion B built on full real bases (delta and i*delta on both sides) and compared entry-wise B = A^H for every enumerated geometry (non-square, unequal pupil/mask shapes, Q/shift forms, real/complex masks and Lyot stops, DM pad/crop/shift/per-axis actuators). '
+            'Non-linear nodes: at every operating point of finite alphabets and every basis direction the companion contracted with every basis upstream gradient equals the Richardson-extrapolated directional derivative.',
+            'Trusted: finite-difference oracle with measured residual (margin >= 260x); DM rotation excluded; czt backprop documented as unimplemented; recorded known finding: DM.render_backprop with upsample != 1.',
+            'bounded-exhaustive scope exploration: adjoint-matrix identity on full bases + exhaustive directional derivatives over finite operating-point alphabets', 'DESIGN.md 4/C06'),
+    'C09': ('Every derivative routine at every order 0..12 (24 thorough), every shape parameter of the alphabets, every unit coefficient vector of every length 1..8 (12) plus a dense one, every derivative order j accepted, compared with the spectrally exact derivative of the value routine '
+            '(Chebyshev / Fourier differentiation of the sampled value routine; complex-step and Richardson for the conic helpers).',
+            'Trusted: numpy.polynomial.chebyshev differentiation, complex-step; sums are linear in the coefficients so unit vectors decide every vector of that length; tolerance 1e3 eps cond (measured <= 18).',
+            'bounded-exhaustive scope exploration vs spectrally exact differentiation of the value routines', 'DESIGN.md 4/C09'),
+    'C10': ('Every unit coefficient vector of every length 1..8 plus a dense one through every fast summation path, every one of the 255 non-empty sparsity patterns of an 8-term (n,m) pool through the 2D-Q packer and evaluator (both term orders), '
+            'compared with the explicit sum of coefficient x scalar mode; lstsq over three bases x grids x every single-sample / row / column / aperture mask x NaN, +inf, -inf fills with residuals orthogonal on exactly the valid samples.',
+            'Trusted: scalar mode functions as the reference by the property\'s wording; rank-deficient masks decided by matrix_rank and skipped (counted); tolerance 1e3 eps cond (measured <= 0.024 of it).',
+            'bounded-exhaustive scope exploration (all unit vectors, all sparsity subsets, all single-sample masks) vs explicit sums', 'DESIGN.md 4/C10'),
+    'C12': ('Explicit-state breadth-first search over sequences of real public Interferogram methods (crop, pad, mask, fill, spike_clip, piston/tilt/power removal, recenter, latcal, strip_latcal, filter, and coordinate reads that populate the lazy caches) from 12+ initial states, '
+            'states deduplicated by a canonical key (shape, dx, calibration flag, populated caches and their shapes, NaN mask, data digest); after every transition the coordinate-coherence invariants, the validity reference model and the statistics laws are evaluated.',
+            'Trusted: plain-numpy reference statistics; depth 3 (quick) / 4-5 (thorough); initial shapes (6,6),(5,7),(6,5) x 4 NaN patterns x dx; the origin of coordinates regenerated after crop is not constrained (path-dependent, outside the statement).',
+            'explicit-state model checking: BFS over operation histories on the real object with canonical-state deduplication', 'DESIGN.md 4/C12'),
+    'C13': ('Parseval, frequency-axis placement (every PSD sample against an explicit DFT on the returned axes), band additivity over every ordered triple of band edges, monotonicity, full-band bound, and synthesis RMS, '
+            'for every shape [3..8]^2 x dx x window (incl. both automatic branches) with the quadratic-form basis (delta_i, delta_i+delta_j) on small shapes and every sinusoid; RNG owned per case.',
+            'Trusted: numpy FFT; shapes up to 8 (11 thorough); band edges at mid-points between sample radii; tolerance 1e3 eps cond (silent at 16).',
+            'bounded-exhaustive scope exploration with quadratic-form basis closure vs explicit DFT / Parseval reference', 'DESIGN.md 4/C13'),
+    'C15': ('conv: every ordered pair of impulses (bilinear closure) against the cyclic translation law plus dense brute force; apply_transfer_functions: every list of length <= 2 from a 12-element TF pool (arrays, callables of every documented signature, partial, bound method) x shift x grid forms as operator matrices vs an explicit DFT reference; '
+            'MTF/PTF/OTF laws on every delta, every delta pair and dense non-negative PSFs.',
+            'Trusted: explicit DFT reference; shapes [1..5]^2 (7 thorough); tolerance 256 eps (margin >= 44x).',
+            'bounded-exhaustive scope exploration with bilinear / operator-matrix closure', 'DESIGN.md 4/C15'),
+    'C16': ('Detector.expose with noise removed through the public backend shim for every bit depth 1..32 x gain x bias x full-well x frames x dcnu/prnu x shape with signals straddling every ceiling, against the documented signal-chain reference, range/dtype/shape and monotonicity over all ordered signal pairs; '
+            'bindown/tile as operator matrices for every shape and every dividing factor tuple; Bayer decomposition/recomposition/demosaicking operator matrices for every even shape and both CFAs; white-balance limiting.',
+            'Trusted: reference signal chain transcribed from the docstrings; axes <= 6 (12 thorough); even shapes [2..8]^2.',
+            'bounded-exhaustive scope exploration vs reference model, operator-matrix closure for the linear maps', 'DESIGN.md 4/C16'),
+    'C18': ('Every enumerated hexagonal / keystone aperture (grid parity, sampling, rings, diameter incl. overflowing, gap, orientation, exclusion set, rotation) checked for segment count, analytic membership of every sample outside a 1e-9 boundary band, pairwise disjointness, coverage, area bound, and the full (segment, mode) operator matrix of compose_opd; '
+            'every mask primitive over size / rotation / offset alphabets for analytic membership, monotone growth and point-group symmetry.',
+            'Trusted: analytic half-plane / inequality membership; samples within relative 1e-9 of a boundary are don\'t-care (counted); grids 48..65 (97 thorough).',
+            'bounded-exhaustive scope exploration vs analytic geometry reference, operator-matrix closure for compose_opd', 'DESIGN.md 4/C18'),
+    'C19': ('Every (surface shape, pose, interaction type) x ray lattice incl. the exact axis x directions, single hops and all prescriptions of length <= 2 (3 thorough) from a posed-surface pool; at every hop: point on surface and on ray, unit direction, reflection law, Snell scalar + coplanarity + transmitted side, '
+            'with the unit normal from an independent analytic / Richardson reference; frame transforms as rigid motions. Misses, TIR and out-of-domain starts are excluded by the reference, never by NaNs.',
+            'Trusted: closed-form conic geometry; Q-type surfaces built from Q2d_and_der with the r=0 polar singularity excluded (counted); tolerances >= 40x measured.',
+            'bounded-exhaustive scope exploration (all short prescriptions) vs independent geometric reference', 'DESIGN.md 4/C19'),
 }
 
 PENDING_REASON = 'check not built yet in this revision (planned: DESIGN.md section 4); not claimed until its explorer exists and is silent on the fixed tree'
